@@ -2,13 +2,18 @@
    ForML.Model.FeedCache).
 
   line   ::= (let ((var sexp)*) op) | op
-  op     ::= (parse sources stmt)                 -> (ok <agrees-with-compile>) | (error <kind>)
+  op     ::= (sugar pyexpr)                       -> (some feature) | none     what the Python expression constructs
+           | (parse sources stmt)                 -> (ok <agrees-with-compile>) | (error <kind>)
            | (run sources stmt db)                -> ((parse ok|<kind> wf|not-wf balanced|unbalanced) (sql <rel>|none) (denote <rel>|none))
            | (hist (feed*) (db*) (hop*))          -> ((run (<rel>|none)*) (spec (<rel>|none)*))   one entry per read
-  feed   ::= (alchemy|lazy sources storage-index)
+  feed   ::= (alchemy|lazy sources storage-index [((source origin-class)*)])
   hop    ::= (read feed-index stmt) | (mutate storage-index db) | (restart)
   sources::= ((source pname)*)
   db     ::= ((pname (col*) (row*))*)      row ::= (val*)      val ::= null | (i n) | (b true|false) | (s text)
+           | a table may also be given as the CSV file behind it: (pname (col*) (csv ((key literal)*) (line*))) - the
+             user's reader options and the lines of the file (header line included if written); content = FileOrigin.loadCsv
+  pyexpr ::= (val lit) | (feat feature) | (bin pyop pyexpr pyexpr) | (inv pyexpr)
+  pyop   ::= add|sub|mul|truediv|mod|lt|le|gt|ge|eq|ne|and|or
   rel    ::= ((name|none)*) (row*)
 -/
 import ForML.Model.Sexp
@@ -18,6 +23,8 @@ import ForML.Model.ParserWF
 import ForML.Model.DslDenote
 import ForML.Model.FeedCache
 import ForML.Model.ParserHints
+import ForML.Model.DslSugar
+import ForML.Model.FileOrigin
 open ForML ForML.Dsl ForML.Rel ForML.Parser
 
 def valOfSexp : Sexp → Option Val
@@ -38,8 +45,21 @@ def rowOfSexp : Sexp → Option Row
   | .list vs => vs.mapM valOfSexp
   | _ => none
 
+def optionsOfSexp : Sexp → Option ForML.FileOrigin.Options
+  | .list kvs => kvs.mapM (fun kv => match kv with
+    | .list [.atom k, .atom v] => some (k, v)
+    | _ => none)
+  | _ => none
+
 def dbOfSexp : Sexp → Option Db
   | .list ts => ts.mapM (fun t => match t with
+    | .list [.atom pn, .list cols, .list [.atom "csv", opts, .list lines]] => do
+      -- a CSV origin: the content is what `Csv.read` takes from the file under the user's options
+      let cs ← cols.mapM Sexp.str?
+      let user ← optionsOfSexp opts
+      let ls ← lines.mapM rowOfSexp
+      let rs ← ForML.FileOrigin.loadCsv (ForML.FileOrigin.effective ForML.FileOrigin.csvDefaults user) ls
+      pure (pn, ({ cols := cs, rows := rs } : PhysTable))
     | .list [.atom pn, .list cols, .list rows] => do
       let cs ← cols.mapM Sexp.str?
       let rs ← rows.mapM rowOfSexp
@@ -61,13 +81,17 @@ def optRelToSexp : Option ORel → Sexp
   | some o => relToSexp o
   | none => .atom "none"
 
+def feedKindOfAtom : String → Option FeedCache.FeedKind
+  | "alchemy" => some .alchemy
+  | "lazy" => some .lazy
+  | _ => none
+
 def feedOfSexp : Sexp → Option FeedCache.Feed
   | .list [.atom k, srcs, i] => do
-    let kind ← match k with
-      | "alchemy" => some FeedCache.FeedKind.alchemy
-      | "lazy" => some FeedCache.FeedKind.lazy
-      | _ => none
-    pure { kind := kind, srcs := ← sourcesOfSexp srcs, storage := ← i.nat? }
+    pure { kind := ← feedKindOfAtom k, srcs := ← sourcesOfSexp srcs, storage := ← i.nat? }
+  | .list [.atom k, srcs, i, origins] => do
+    -- lazy feeds: the origin class providing each table ((source class)*)
+    pure { kind := ← feedKindOfAtom k, srcs := ← sourcesOfSexp srcs, storage := ← i.nat?, origins := ← sourcesOfSexp origins }
   | _ => none
 
 def hopOfSexp : Sexp → Option FeedCache.Op
@@ -85,8 +109,29 @@ def stepHist : Sexp → Sexp
     | _, _, _ => .atom "bad-op"
   | _ => .atom "bad-op"
 
+def pyOpOfAtom : String → Option ForML.Sugar.PyOp
+  | "add" => some .add | "sub" => some .sub | "mul" => some .mul | "truediv" => some .truediv | "mod" => some .mod
+  | "lt" => some .lt | "le" => some .le | "gt" => some .gt | "ge" => some .ge | "eq" => some .eq | "ne" => some .ne
+  | "and" => some .and | "or" => some .or
+  | _ => none
+
+partial def pyExprOfSexp : Sexp → Option ForML.Sugar.PyExpr
+  | .list [.atom "val", v] => (Lit.ofSexp v).map .val
+  | .list [.atom "feat", f] => (Feature.ofSexp f).map .feat
+  | .list [.atom "bin", .atom op, a, b] => do
+    pure (.bin (← pyOpOfAtom op) (← pyExprOfSexp a) (← pyExprOfSexp b))
+  | .list [.atom "inv", a] => (pyExprOfSexp a).map .inv
+  | _ => none
+
 def stepC06 (line : Sexp) : Sexp :=
   match expandLet line with
+  | some (.list [.atom "sugar", e]) =>
+    match pyExprOfSexp e with
+    | some e =>
+      match e.eval with
+      | some (.feat f) => .list [.atom "some", f.toSexp]
+      | _ => .atom "none"
+    | none => .atom "bad-op"
   | some (.list [.atom "parse", srcs, stmt]) =>
     match sourcesOfSexp srcs, Source.ofSexp stmt with
     | some srcs, some s =>
